@@ -21,7 +21,7 @@ TIERS = {
     "quick": {"targets": 320, "runs": 600, "ref_seeds": [0, 1, 20260924, 4242], "fresh_checks": 6, "redo": 8, "min_budget": 24,
               "chunk": 12, "budget_s": 420, "torchlib": False},
     "thorough": {"targets": 4000, "runs": 24000, "ref_seeds": [0, 1, 2, 3, 7, 1234567, 20260924, 4294967295], "fresh_checks": 40,
-                 "redo": 250, "min_budget": 60, "chunk": 25, "budget_s": 3300, "torchlib": True, "per_family": 10, "ort_models": 200, "ort_per_file": 40, "attention_models": 32, "gqa_models": 16, "script_twins": 40, "external_families": 23, "composed_models": 100, "op_families": 200},
+                 "redo": 250, "min_budget": 60, "chunk": 25, "budget_s": 3300, "torchlib": True, "per_family": 10, "variant_cap": 24, "ort_models": 200, "ort_per_file": 40, "attention_models": 32, "gqa_models": 16, "script_twins": 40, "external_families": 23, "composed_models": 100, "op_families": 200},
 }
 REF_PRE_SKEW = [0, 3, 5, 1, 2, 7, 11, 13]   # pre-import heap skew of the i-th reference environment
 PRE_SKEWS = [0, 0, 1, 2, 3, 5, 7, 11, 13, 101]
